@@ -890,3 +890,103 @@ func vh_C13_front_two_runs_Q() {
 	symxCover("C13.front.two-runs-compared")
 	symxAssert(same, "C13.front.two-analyses-give-the-same-metadata-in-the-same-order")
 }
+
+// ---- C04 through the front end: @Security comments on controller and method, default security and the enforce flag
+
+func vhFrontSecuritySource(ctrlSec, methodSec string) string {
+	return `package ctl
+
+import "github.com/gopher-fleece/runtime"
+
+// @Tag(T)
+// @Route(/c)
+` + ctrlSec + `type Ctl struct {
+	runtime.GleeceController
+}
+
+// @Method(GET)
+// @Route(/r)
+` + methodSec + `func (c *Ctl) Op() error { return nil }
+`
+}
+
+func vh_C04_front_security_Q() {
+	type alt struct {
+		scheme string
+		scopes []string
+	}
+	ctrlChoice := symxChoice("ctrl", 3)
+	ctrlText := []string{"", "// @Security(s1, { scopes: [\"a\"] })\n", "// @Security(s2)\n"}[ctrlChoice]
+	ctrlSecs := [][]alt{nil, {{"s1", []string{"a"}}}, {{"s2", nil}}}[ctrlChoice]
+	methodChoice := symxChoice("method", 4)
+	methodText := []string{"", "// @Security(s1, { scopes: [\"b\", \"c\"] })\n", "// @Security(s1, { scopes: [\"b\"] })\n// @Security(s2)\n", "// @Security(s3, { scopes: [] })\n"}[methodChoice]
+	methodSecs := [][]alt{nil, {{"s1", []string{"b", "c"}}}, {{"s1", []string{"b"}}, {"s2", nil}}, {{"s3", nil}}}[methodChoice]
+	hasDefault := symxBool("default")
+	enforce := symxBool("enforce")
+	cfg := vhFrontConfig()
+	for _, name := range []string{"s1", "s2", "s3"} {
+		cfg.OpenAPIGeneratorConfig.SecuritySchemes = append(cfg.OpenAPIGeneratorConfig.SecuritySchemes, definitions.SecuritySchemeConfig{
+			SecurityName: name, Description: "d", Type: "apiKey", In: "header", FieldName: "X-" + name})
+	}
+	var def []alt
+	if hasDefault {
+		cfg.OpenAPIGeneratorConfig.DefaultRouteSecurity = &definitions.SecurityAnnotationComponent{SchemaName: "s3", Scopes: []string{"d"}}
+		def = []alt{{"s3", []string{"d"}}}
+	}
+	cfg.RoutesConfig.AuthorizationConfig.EnforceSecurityOnAllRoutes = enforce
+	fr, err := visitors.VhLoadSource(vhFrontSecuritySource(ctrlText, methodText), nil)
+	symxAssert(err == nil, "C04.front.fixture-loads")
+	if err != nil {
+		return
+	}
+	meta, err := pipeline.VhNewPipeline(fr, cfg).Run()
+	want := methodSecs
+	if len(want) == 0 {
+		want = ctrlSecs
+	}
+	if len(want) == 0 {
+		want = def
+	}
+	if enforce && len(want) == 0 {
+		symxCover("C04.front.open-route-under-enforce")
+		symxAssert(err != nil, "C04.front.enforce-flag-leaves-no-open-route")
+		return
+	}
+	if err != nil {
+		symxRecord("refused", err.Error())
+	}
+	symxAssert(err == nil, "C04.front.project-is-accepted")
+	if err != nil {
+		return
+	}
+	symxCover("C04.front.accepted")
+	symxAssert(len(meta.Flat) == 1 && len(meta.Flat[0].Routes) == 1, "C04.front.one-route")
+	if len(meta.Flat) != 1 || len(meta.Flat[0].Routes) != 1 {
+		return
+	}
+	eff := meta.Flat[0].Routes[0].Security
+	symxAssert(len(eff) == len(want), "C04.front.enforced-alternatives-are-method-else-controller-else-default")
+	for i := range eff {
+		if i < len(want) {
+			c := eff[i].SecurityAnnotation
+			symxAssert(len(c) == 1 && c[0].SchemaName == want[i].scheme && vhSameStrings(c[0].Scopes, want[i].scopes), "C04.front.enforced-alternative")
+		}
+	}
+	ocfg := &cfg.OpenAPIGeneratorConfig
+	doc30, doc31 := vhNewDoc30(), vhNewDoc31()
+	symxAssert(swagen30.GenerateSecuritySpec(doc30, &ocfg.SecuritySchemes) == nil && swagen31.GenerateSecuritySpec(doc31, &ocfg.SecuritySchemes) == nil, "C04.front.schemes-no-error")
+	symxAssert(swagen30.GenerateControllersSpec(doc30, ocfg, meta.Flat) == nil && swagen31.GenerateControllersSpec(doc31, ocfg, meta.Flat) == nil, "C04.front.documents-no-error")
+	for vi, ops := range [][]vhOpView{vhOps30(doc30), vhOps31(doc31)} {
+		ver := []string{"30", "31"}[vi]
+		symxAssert(len(ops) == 1, "C04.front."+ver+".one-operation")
+		if len(ops) != 1 {
+			continue
+		}
+		symxAssert(len(ops[0].security) == len(want), "C04.front."+ver+".documented-security-equals-enforced-security")
+		for i, req := range ops[0].security {
+			if i < len(want) {
+				symxAssert(len(req.names) == 1 && req.names[0] == want[i].scheme && vhSameStrings(req.scopes[0], want[i].scopes), "C04.front."+ver+".documented-alternative")
+			}
+		}
+	}
+}
